@@ -41,6 +41,14 @@ def run_r1_r2(chk: Check, recs: List[dict], pid: str = "C06") -> None:
                           where_rule(r, "can_apply_to"))
         else:
             chk.ok(f"{pid}.R1", f"{pid}.R1:{r['rule']}", label, where=where_rule(r, "can_apply_to"))
+        if r["outcome"] == "history":
+            site = r.get("note", "").split(" at ")[-1].split(":L")[0]
+            chk.fail(f"{pid}.R1", f"{pid}.R1:{r['rule']}:history-dependent:{site}", label,
+                     f"the answer is read from state that earlier calls left on the rule object ({r.get('note')}): node ids are "
+                     f"preserved by clone() and by in-place rewrites, so the same key can denote a different tree and the rule "
+                     f"no longer gives the same answer for the same tree",
+                     witness={"path": r["cond"][:400], "phase": r.get("phase")}, where=where_rule(r, "can_apply_to"))
+            continue
         # ---- R2
         if r["outcome"] == "bound":
             chk.undecided(f"{pid}.R2", f"{pid}.R2:{r['rule']}:bound", label, r.get("note", ""), where_rule(r))
